@@ -1,16 +1,16 @@
 SPECIFICATION Spec
 CONSTANTS
-  Confs <- Shapes
-  InitRegs <- OneShapeRegs
-  ScopeNames = {"a", "ab"}
-  MaxScopeDepth = 3
-  MaxStack = 4
+  Confs <- ListShapes
+  InitRegs <- ListRegs2
+  ScopeNames = {"a", "b"}
+  MaxScopeDepth = 2
+  MaxStack = 3
   BindVals <- BV12
   MaxBindings = 5
   Enabled = {"Bind", "EnterScope", "ExitScope", "Call"}
   NameOrder <- Names6
   HookUniverse = {}
-  BindApis = {"tuple"}
+  BindApis <- AllApis
   FreshConfs = {}
   ConstNames = {}
   CallsWithReq = FALSE
